@@ -169,6 +169,8 @@ def pins_for_schedule(h, sched, pin_horizon=False):
             pins.append(tv["duration"] == rec["duration"])
     for ai, a in enumerate(h.assign):
         srec = sched["assign"][ai]
+        if not sched["tasks"][a["task"]]["scheduled"]:
+            continue  # selections / spans of an unscheduled task are the encoder's business
         sv = sel_vars(h, ai)
         if sv is not None and srec.get("chosen") is not None and a["kind"] == "select":
             for wn, v in sv.items():
